@@ -1247,4 +1247,309 @@ Proof.
     - destruct C as [C1 C2]. split; [eapply wstep_trans; eassumption|eapply okhalt_step; eassumption]. }
   destruct e as [k|]; [|exact CT]. destruct (k =? EK_Aborted); [exact CT|exact H2].
 Qed.
+
+(* ---- StreamWriter ---- *)
+Fixpoint cut (n : N) (l : list bytes) : list bytes :=
+  match l with
+  | [] => []
+  | s :: t => if len s <=? n then cut (n - len s) t else drop n s :: t
+  end.
+Definition tot (l : list bytes) : nat := length (concat l).
+
+Lemma write_slices_S f slices w :
+  write_slices (S f) slices w =
+  match filter (fun s => negb (len s =? 0)) slices with
+  | [] => Ok None w
+  | s1 :: more =>
+    match t_poll_write (if vectored w then s1 ++ concat more else s1) w with
+    | (PReady (inl n), w') => if n =? 0 then Ok (Some EK_WriteZero) w' else write_slices f (cut n (s1 :: more)) w'
+    | (PReady (inr k), w') => Ok (Some k) w'
+    | (PWake, w') => on_wake false w' (write_slices f (s1 :: more))
+    | (PBlock, w') => Halt (OPanic 51) w'
+    end
+  end.
+Proof. reflexivity. Qed.
+
+Lemma tot_filter l : tot (filter (fun s : list N => negb (len s =? 0)) l) = tot l.
+Proof.
+  unfold tot. induction l as [|s t IH]; [reflexivity|]. cbn [filter].
+  destruct (N.eqb_spec (len s) 0) as [E|E]; cbn [negb].
+  - apply len_zero_nil in E. subst s. cbn [concat app]. exact IH.
+  - cbn [concat]. rewrite !app_length, IH. reflexivity.
+Qed.
+
+Lemma tot_cut : forall l n, tot (cut n l) = (tot l - N.to_nat n)%nat.
+Proof.
+  unfold tot. induction l as [|s t IH]; intros n; [reflexivity|]. cbn [cut].
+  destruct (N.leb_spec (len s) n) as [H|H].
+  - rewrite IH. cbn [concat]. rewrite app_length. unfold len in *. lia.
+  - cbn [concat]. rewrite !app_length. pose proof (len_drop n s) as L. unfold len in *. lia.
+Qed.
+
+Lemma filter_head_nonempty l s1 more : filter (fun s : list N => negb (len s =? 0)) l = s1 :: more -> s1 <> [].
+Proof.
+  intros E. assert (H : In s1 (filter (fun s : list N => negb (len s =? 0)) l)) by (rewrite E; left; reflexivity).
+  apply filter_In in H. destruct H as [_ H]. intros ->. rewrite len_nil in H. discriminate.
+Qed.
+
+Lemma write_slices_ok : forall fuel slices w, (length (wscript w) + tot slices + 1 <= fuel)%nat ->
+  match write_slices fuel slices w with
+  | Ok _ w' => wstep w w'
+  | Halt _ _ => False
+  end.
+Proof.
+  induction fuel as [|f IH]; intros slices w Hf; [lia|]. rewrite write_slices_S.
+  pose proof (tot_filter slices) as TF.
+  destruct (filter (fun s : list N => negb (len s =? 0)) slices) as [|s1 more] eqn:Ef; [apply wstep_refl|].
+  pose proof (filter_head_nonempty _ _ _ Ef) as Hne.
+  set (offer := if vectored w then _ else _).
+  assert (Hoff : offer <> [] /\ (length offer <= tot (s1 :: more))%nat).
+  { subst offer. unfold tot. cbn [concat]. rewrite app_length. destruct (vectored w).
+    - split; [destruct s1; [congruence|discriminate]|rewrite app_length; lia].
+    - split; [exact Hne|lia]. }
+  destruct Hoff as [Hoff Hlen].
+  pose proof (t_poll_write_spec offer w Hoff) as P.
+  destruct (t_poll_write offer w) as [[[n|k]| |] w1].
+  - destruct P as (S1 & Hn & Hw & Hz). destruct (N.eqb_spec n 0) as [E0|E0]; [exact S1|].
+    assert (Hf' : (length (wscript w1) + tot (cut n (s1 :: more)) + 1 <= f)%nat).
+    { rewrite tot_cut. destruct Hw as [(W1 & W2 & W3)|W]; [|lia].
+      rewrite W2. rewrite W1 in Hf. cbn [length] in *. unfold len in *. lia. }
+    specialize (IH (cut n (s1 :: more)) w1 Hf').
+    destruct (write_slices f (cut n (s1 :: more)) w1) as [x w2|o w2]; [|contradiction].
+    eapply wstep_trans; eassumption.
+  - apply P.
+  - destruct P as [S1 Hw]. unfold on_wake. cbn [andb].
+    assert (Hf' : (length (wscript (w_bump w1)) + tot (s1 :: more) + 1 <= f)%nat)
+      by (change (wscript (w_bump w1)) with (wscript w1); lia).
+    specialize (IH (s1 :: more) (w_bump w1) Hf').
+    destruct (write_slices f (s1 :: more) (w_bump w1)) as [x w2|o w2]; [|contradiction].
+    eapply wstep_trans; [exact S1|]. eapply wstep_trans; [apply wstep_bump|exact IH].
+  - contradiction.
+Qed.
+
+Lemma auto_padding_lt n : auto_padding n < 8.
+Proof. unfold auto_padding. destruct (N.ltb_spec 0 (n mod 8)); lia. Qed.
+
+Lemma writer_write_all_ok : forall fuel stype id data w,
+  (1 <= fuel)%nat -> len data <= 65535 * (N.of_nat fuel - 1) ->
+  match writer_write_all fuel stype id data w with
+  | Ok _ w' => wstep w w'
+  | Halt _ _ => False
+  end.
+Proof.
+  induction fuel as [|f IH]; intros stype id data w H1 Hl; [lia|]. cbn [writer_write_all].
+  destruct data as [|x data']; [apply wstep_refl|].
+  set (data := x :: data') in *. set (n := N.min (len data) 65535).
+  pose proof (write_slices_ok (io_fuel w (n + 300)) [hdr_encode stype id n (auto_padding n); take n data; zeros (auto_padding n)] w) as WS.
+  assert (Hf : (length (wscript w) + tot [hdr_encode stype id n (auto_padding n); take n data; zeros (auto_padding n)] + 1
+                <= io_fuel w (n + 300))%nat).
+  { rewrite io_fuel_eq. unfold tot. cbn [concat]. rewrite !app_length. cbn [length].
+    pose proof (len_take n data) as L1. pose proof (len_zeros (auto_padding n)) as L2. pose proof (auto_padding_lt n).
+    change (length (hdr_encode stype id n (auto_padding n))) with 8%nat. unfold len in *. lia. }
+  specialize (WS Hf).
+  destruct (write_slices (io_fuel w (n + 300)) [hdr_encode stype id n (auto_padding n); take n data; zeros (auto_padding n)] w)
+    as [[k|] w1|o w1]; [exact WS| |contradiction].
+  assert (Hd : 1 <= len data) by (subst data; rewrite len_cons; lia).
+  assert (H1' : (1 <= f)%nat) by lia.
+  assert (Hl' : len (drop n data) <= 65535 * (N.of_nat f - 1)) by (rewrite len_drop; subst n; lia).
+  specialize (IH stype id (drop n data) w1 H1' Hl').
+  destruct (writer_write_all f stype id (drop n data) w1) as [y w2|o w2]; [|contradiction].
+  eapply wstep_trans; eassumption.
+Qed.
+
+(* ---- handler scripts ---- *)
+Lemma read_all_ok : forall fuel acc r w, rgood r -> world_ok w -> (rsize r + nb w + 2 <= fuel)%nat ->
+  match read_all maxc fuel acc r w with
+  | Ok (_, r') w' => hkeep r w r' w' /\ stream (rsp r') = stream (rsp r)
+  | Halt o w' => wstep w w' /\ okhalt w o
+  end.
+Proof.
+  induction fuel as [|f IH]; intros acc r w G Wok Hf; [lia|]. cbn [read_all].
+  pose proof (await_input_io (Some 64) r w G Wok) as AI.
+  destruct (await_input maxc (io_fuel w 0) (Some 64) r w) as [[[[n b]|k] r1] w1|o w1].
+  - destruct (ckeep_hkeep _ _ _ _ _ AI) as [H1 S1].
+    destruct (N.eqb_spec n 0) as [E0|E0]; [split; [exact H1|exact S1]|].
+    destruct AI as (A1 & A2 & A3 & A4). cbn [dlv] in A4.
+    specialize (IH (acc ++ b) r1 w1 A1 (ws_ok _ _ A2 Wok) ltac:(lia)).
+    destruct (read_all maxc f (acc ++ b) r1 w1) as [[[k acc'] r2] w2|o w2].
+    + destruct IH as [I1 I2]. split; [eapply hkeep_trans; eassumption|congruence].
+    + destruct IH as [I1 I2]. split; [eapply wstep_trans; eassumption|eapply okhalt_step; eassumption].
+  - destruct AI as [AI _]. apply (ckeep_hkeep _ _ _ _ _ AI).
+  - exact AI.
+Qed.
+
+(* A handler script is a list of numbers: 1 n (read n bytes), 2 (read to the end), 3 k (fill the buffer, consume k),
+   4 s (set_stream(Some s)), 5 (writeable), 6 s n data (write data on stream s), 7 s (flush), 8 d c (return the
+   exit status (d, c)), 9 k (return an error).  A script is well-formed if it only uses these opcodes with
+   their arities and every exit status is a value of ExitStatus.  With [strict = true] it is moreover required
+   that every set_stream is accepted by the stream order at that point ([cur] is the active stream: writeable()
+   moves it to the role's last stream); with [strict = false] a rejected set_stream is the handler's own
+   unwrap panic (site 70). *)
+Inductive script_ok (strict : bool) (role : N) : option N -> list N -> Prop :=
+| SO_nil cur : script_ok strict role cur []
+| SO_read cur n rest : script_ok strict role cur rest -> script_ok strict role cur (1 :: n :: rest)
+| SO_read_all cur rest : script_ok strict role cur rest -> script_ok strict role cur (2 :: rest)
+| SO_fill cur k rest : script_ok strict role cur rest -> script_ok strict role cur (3 :: k :: rest)
+| SO_set cur s rest : (strict = true -> accepts role cur (Some s) = Some true) ->
+    script_ok strict role (Some s) rest -> script_ok strict role cur (4 :: s :: rest)
+| SO_writeable cur rest : script_ok strict role (last_opt role) rest -> script_ok strict role cur (5 :: rest)
+| SO_write cur s n rest : script_ok strict role cur (drop n rest) -> script_ok strict role cur (6 :: s :: n :: rest)
+| SO_flush cur s rest : script_ok strict role cur rest -> script_ok strict role cur (7 :: s :: rest)
+| SO_exit cur d c rest : In d EXITSTATUS_VALUES -> script_ok strict role cur (8 :: d :: c :: rest)
+| SO_fail cur k rest : script_ok strict role cur (9 :: k :: rest).
+
+Definition okhalt70 (strict : bool) (w : world) (o : outcome) : Prop :=
+  okhalt w o \/ (strict = false /\ o = OPanic 70).
+
+Definition hpost (strict : bool) (r : rstate) (w : world) (x : res ((N * N + N) * rstate)) : Prop :=
+  match x with
+  | Ok (st, r') w' => hkeep r w r' w' /\ match st with inl (d, _) => In d EXITSTATUS_VALUES | inr _ => True end
+  | Halt o w' => wstep w w' /\ okhalt70 strict w o
+  end.
+
+Lemma okhalt70_step strict w w' o : wstep w w' -> okhalt70 strict w' o -> okhalt70 strict w o.
+Proof. intros S [H|H]; [left; eapply okhalt_step; eassumption|right; exact H]. Qed.
+
+Lemma hpost_cont strict r w r1 w1 x : hkeep r w r1 w1 -> hpost strict r1 w1 x -> hpost strict r w x.
+Proof.
+  intros H. unfold hpost. destruct x as [[st r2] w2|o w2].
+  - intros [A B]. split; [eapply hkeep_trans; eassumption|exact B].
+  - intros [A B]. destruct H as (_ & S & _). split; [eapply wstep_trans; eassumption|eapply okhalt70_step; eassumption].
+Qed.
+
+Lemma exit_complete_in : In EXIT_Complete EXITSTATUS_VALUES.
+Proof. left. reflexivity. Qed.
+
+Lemma accepts_input role cur s : accepts role cur (Some s) = Some true -> is_input_stream s = true.
+Proof.
+  unfold accepts, cmp_input_streams. destruct cur as [e|]; [|discriminate].
+  destruct (is_input_stream s); [reflexivity|]. cbn [negb orb]. discriminate.
+Qed.
+
+Lemma run_handler_ok strict role cur script : script_ok strict role cur script ->
+  forall f r w, (length script < f)%nat -> rgood r -> world_ok w ->
+  r_role (sreq (rsp r)) = role -> stream (rsp r) = cur ->
+  hpost strict r w (run_handler maxc f script r w).
+Proof.
+  induction 1 as [cur|cur n rest H IH|cur rest H IH|cur k rest H IH|cur s rest Hacc H IH|cur rest H IH
+                  |cur s n rest H IH|cur s rest H IH|cur d c rest Hd|cur k rest];
+    intros f r w Hf G Wok Hrole Hcur; (destruct f as [|f]; [cbn [length] in Hf; lia|]); cbn [length] in Hf; cbn [run_handler].
+  - (* end of script *)
+    split; [apply hkeep_world with (w' := w); [apply hkeep_refl; exact G|apply wstep_ev]|apply exit_complete_in].
+  - (* 1 n *)
+    pose proof (await_input_io (Some n) r w G Wok) as AI.
+    destruct (await_input maxc (io_fuel w 0) (Some n) r w) as [[[[c b]|k] r1] w1|o w1].
+    + destruct (ckeep_hkeep _ _ _ _ _ AI) as [H1 S1].
+      set (w2 := w_ev (w_ev w1 [1; 1; c]) b).
+      assert (H2 : hkeep r w r1 w2).
+      { apply hkeep_world with (w' := w1); [exact H1|]. eapply wstep_trans; apply wstep_ev. }
+      apply (hpost_cont _ _ _ _ _ _ H2). pose proof H2 as (G2 & S2 & Q2 & _).
+      apply IH; [lia|exact G2|exact (ws_ok _ _ S2 Wok)|rewrite Q2; exact Hrole|congruence].
+    + destruct AI as [AI _]. destruct (ckeep_hkeep _ _ _ _ _ AI) as [H1 S1].
+      set (w2 := w_ev (w_ev w1 [1; 0; k]) []).
+      assert (H2 : hkeep r w r1 w2).
+      { apply hkeep_world with (w' := w1); [exact H1|]. eapply wstep_trans; apply wstep_ev. }
+      apply (hpost_cont _ _ _ _ _ _ H2). pose proof H2 as (G2 & S2 & Q2 & _).
+      apply IH; [lia|exact G2|exact (ws_ok _ _ S2 Wok)|rewrite Q2; exact Hrole|congruence].
+    + destruct AI as [A1 A2]. split; [exact A1|left; exact A2].
+  - (* 2 *)
+    set (fu := (_ + length (buffer (rsp r)) + 4)%nat).
+    assert (Efu : fu = (nb w + length (buffer (rsp r)) + 4)%nat) by reflexivity.
+    pose proof (read_all_ok fu [] r w G Wok) as RA.
+    assert (Hfu : (rsize r + nb w + 2 <= fu)%nat).
+    { pose proof (psize_bound (rsp r) (proj1 (proj1 G))). unfold rsize. lia. }
+    specialize (RA Hfu). clearbody fu.
+    destruct (read_all maxc fu [] r w) as [[[k acc] r1] w1|o w1].
+    + destruct RA as [H1 S1]. set (w2 := w_ev (w_ev w1 [2; k]) acc).
+      assert (H2 : hkeep r w r1 w2).
+      { apply hkeep_world with (w' := w1); [exact H1|]. eapply wstep_trans; apply wstep_ev. }
+      apply (hpost_cont _ _ _ _ _ _ H2). pose proof H2 as (G2 & S2 & Q2 & _).
+      apply IH; [lia|exact G2|exact (ws_ok _ _ S2 Wok)|rewrite Q2; exact Hrole|congruence].
+    + destruct RA as [A1 A2]. split; [exact A1|left; exact A2].
+  - (* 3 k *)
+    pose proof (await_input_io None r w G Wok) as AI.
+    destruct (await_input maxc (io_fuel w 0) None r w) as [[[[c b]|e] r1] w1|o w1].
+    + destruct (ckeep_hkeep _ _ _ _ _ AI) as [H1 S1].
+      set (cc := N.min k (len (stream_buffer (rsp r1)))).
+      set (r2 := mkR (consume_stream (rsp r1) cc) (rwriteable r1) (rlock r1)).
+      set (w2 := w_ev (w_ev w1 [3; 1; cc]) (stream_buffer (rsp r1))).
+      pose proof H1 as (G1 & Sw1 & Q1 & B1 & Z1).
+      destruct (consume_stream_views (rsp r1) cc (proj1 (proj1 G1))) as (V1 & V2 & V3 & V4).
+      assert (H2 : hkeep r w r2 w2).
+      { apply hkeep_world with (w' := w1); [|eapply wstep_trans; apply wstep_ev].
+        apply hkeep_trans with (r1 := r1) (w1 := w1); [exact H1|].
+        split; [apply (rgood_transfer r1); try assumption; try reflexivity; rewrite V2; apply G1|].
+        split; [apply wstep_refl|]. destruct V3 as (K1 & K2 & K3). split; [exact K1|]. split; [exact K3|].
+        unfold rsize. subst r2. cbn [rsp]. lia. }
+      apply (hpost_cont _ _ _ _ _ _ H2). pose proof H2 as (G2 & S2 & Q2 & _).
+      apply IH; [lia|exact G2|exact (ws_ok _ _ S2 Wok)|rewrite Q2; exact Hrole|].
+      subst r2. cbn [rsp]. destruct V3 as (_ & K2 & _). congruence.
+    + destruct AI as [AI _]. destruct (ckeep_hkeep _ _ _ _ _ AI) as [H1 S1].
+      set (w2 := w_ev (w_ev w1 [3; 0; e]) []).
+      assert (H2 : hkeep r w r1 w2).
+      { apply hkeep_world with (w' := w1); [exact H1|]. eapply wstep_trans; apply wstep_ev. }
+      apply (hpost_cont _ _ _ _ _ _ H2). pose proof H2 as (G2 & S2 & Q2 & _).
+      apply IH; [lia|exact G2|exact (ws_ok _ _ S2 Wok)|rewrite Q2; exact Hrole|congruence].
+    + destruct AI as [A1 A2]. split; [exact A1|left; exact A2].
+  - (* 4 s *)
+    assert (BAD : strict = false -> hpost strict r w (Halt (OPanic 70) w)).
+    { intros Es. split; [apply wstep_refl|right; split; [exact Es|reflexivity]]. }
+    assert (GOOD : forall p', set_stream (rsp r) (Some s) = SetOk p' ->
+              hpost strict r w (run_handler maxc f rest (mkR p' (rwriteable r) (rlock r)) (w_ev w [4; stream_code (stream p')]))).
+    { intros p' E. pose proof (set_stream_ok_accepted _ _ _ E) as A. rewrite Hrole, Hcur in A.
+      destruct (set_stream_views (rsp r) (Some s) p' (proj1 G) (accepts_input _ _ _ A) E) as (V1 & V2 & V3 & V4 & V5 & _).
+      set (r2 := mkR p' (rwriteable r) (rlock r)).
+      assert (G2 : rgood r2).
+      { split; [exact V1|]. pose proof (proj2 G) as W. unfold wr_inv, wr_inv_at in *. subst r2. cbn [rsp rwriteable].
+        rewrite V2, V3, Hrole. rewrite Hrole, Hcur in W. destruct (accepts_some_inv _ _ _ A) as [I1 I2].
+        destruct (rwriteable r); [apply I1; exact W|]. destruct W as (x & Ex & Hx). exists s. split; [reflexivity|].
+        apply (I2 x Ex Hx). }
+      assert (H2 : hkeep r w r2 (w_ev w [4; stream_code (stream p')])).
+      { apply hkeep_world with (w' := w); [|apply wstep_ev]. split; [exact G2|]. split; [apply wstep_refl|].
+        split; [exact V2|]. split; [exact V4|]. unfold rsize. subst r2. cbn [rsp]. lia. }
+      apply (hpost_cont _ _ _ _ _ _ H2). pose proof H2 as (_ & S2 & _).
+      apply IH; [lia|exact G2|exact (ws_ok _ _ S2 Wok)|subst r2; cbn [rsp]; rewrite V2; exact Hrole|exact V3]. }
+    destruct strict.
+    + specialize (Hacc eq_refl). rewrite <- Hrole, <- Hcur in Hacc.
+      destruct (set_stream_accepted _ _ Hacc) as (p' & E). rewrite E. apply GOOD. exact E.
+    + destruct (set_stream (rsp r) (Some s)) as [p'| |] eqn:E; [apply GOOD; reflexivity|apply BAD; reflexivity|apply BAD; reflexivity].
+  - (* 5 *)
+    pose proof (do_writeable_ok r w G Wok) as DW.
+    destruct (do_writeable maxc r w) as [[e r1] w1|o w1].
+    + destruct DW as (H1 & S1 & _).
+      set (w2 := w_ev w1 [5; match e with None => 0 | Some k => k end; if rwriteable r1 then 1 else 0; stream_code (stream (rsp r1))]).
+      assert (H2 : hkeep r w r1 w2) by (apply hkeep_world with (w' := w1); [exact H1|apply wstep_ev]).
+      apply (hpost_cont _ _ _ _ _ _ H2). pose proof H2 as (G2 & S2 & Q2 & _).
+      apply IH; [lia|exact G2|exact (ws_ok _ _ S2 Wok)|rewrite Q2; exact Hrole|rewrite S1, Hrole; reflexivity].
+    + destruct DW as [A1 A2]. split; [exact A1|left; exact A2].
+  - (* 6 s n data *)
+    assert (Hlen : (length (drop n rest) <= length rest)%nat).
+    { pose proof (len_drop n rest) as L. unfold len in L. lia. }
+    destruct (negb (rwriteable r)).
+    + assert (H2 : hkeep r w r (w_ev w [6; 99])) by (apply hkeep_world with (w' := w); [apply hkeep_refl; exact G|apply wstep_ev]).
+      apply (hpost_cont _ _ _ _ _ _ H2). pose proof H2 as (_ & S2 & _).
+      apply IH; [lia|exact G|exact (ws_ok _ _ S2 Wok)|exact Hrole|exact Hcur].
+    + pose proof (writer_write_all_ok (N.to_nat (n / 65535) + 2) s (r_id (sreq (rsp r))) (take n rest) w ltac:(lia)
+                    ltac:(rewrite len_take; lia)) as WW.
+      destruct (writer_write_all (N.to_nat (n / 65535) + 2) s (r_id (sreq (rsp r))) (take n rest) w) as [[k|] w1|o w1];
+        [| |contradiction].
+      * split; [|exact I]. apply hkeep_world with (w' := w); [apply hkeep_refl; exact G|].
+        eapply wstep_trans; [exact WW|apply wstep_ev].
+      * assert (H2 : hkeep r w r (w_ev w1 [6; 0])).
+        { apply hkeep_world with (w' := w); [apply hkeep_refl; exact G|]. eapply wstep_trans; [exact WW|apply wstep_ev]. }
+        apply (hpost_cont _ _ _ _ _ _ H2). pose proof H2 as (_ & S2 & _).
+        apply IH; [lia|exact G|exact (ws_ok _ _ S2 Wok)|exact Hrole|exact Hcur].
+  - (* 7 s *)
+    destruct (rwriteable r).
+    + assert (H2 : hkeep r w r (w_ev w [7; 0])) by (apply hkeep_world with (w' := w); [apply hkeep_refl; exact G|apply wstep_ev]).
+      apply (hpost_cont _ _ _ _ _ _ H2). pose proof H2 as (_ & S2 & _).
+      apply IH; [lia|exact G|exact (ws_ok _ _ S2 Wok)|exact Hrole|exact Hcur].
+    + assert (H2 : hkeep r w r (w_ev w [7; 99])) by (apply hkeep_world with (w' := w); [apply hkeep_refl; exact G|apply wstep_ev]).
+      apply (hpost_cont _ _ _ _ _ _ H2). pose proof H2 as (_ & S2 & _).
+      apply IH; [lia|exact G|exact (ws_ok _ _ S2 Wok)|exact Hrole|exact Hcur].
+  - (* 8 d c *)
+    split; [apply hkeep_world with (w' := w); [apply hkeep_refl; exact G|apply wstep_ev]|exact Hd].
+  - (* 9 k *)
+    split; [apply hkeep_world with (w' := w); [apply hkeep_refl; exact G|apply wstep_ev]|exact I].
+Qed.
 End ConnTotal.
